@@ -809,3 +809,8 @@ func VerifReadRemoteState(m *Memberlist, body []byte) (bool, []VerifPushNodeStat
 	}
 	return join, out, user, nil
 }
+
+// VerifSendPingAndWaitForAck wraps sendPingAndWaitForAck (the stream fallback of a probe).
+func VerifSendPingAndWaitForAck(m *Memberlist, addr, name string, seqNo uint32, deadline time.Time) (bool, error) {
+	return m.sendPingAndWaitForAck(Address{Addr: addr, Name: name}, ping{SeqNo: seqNo, Node: name}, deadline)
+}
